@@ -617,6 +617,8 @@ def c13_after_wellformed(res, rng):
 
 def c13(res):
     rng = random.Random(res.seed)
+    import gentie
+    gentie.note_validation(res)
     c13_shared_ids(res)
     c13_shared_ids_rejected(res)
     c13_after_wellformed(res, rng)
@@ -1556,6 +1558,7 @@ def c19(res):
 def c19_body(res, rng):
     import gentie
     st = gentie.note(res, "ordinal, comparison operators, == and default gamma: each of the five classes separately against ONE model definition")
+    gentie.note_validation(res)
     if len(set(st["ops_ok"].values())) > 1:
         res.notes.append("static tie: the rating operators of %s are no longer identified with the shared model definition while the others are: the five copies differ in text there" % (
             ", ".join(k for k, v in st["ops_ok"].items() if not v)))
